@@ -45,7 +45,9 @@ OPCODE_FILES = ('tokens/base_token.py', 'tokens/composite_base_token.py', 'token
 def _corpus_item(seed):
     """A small workbook + the entry spellings worth trying on it."""
     r = core.rng(seed, 'corpus')
-    kind = r.choice(['safe', 'safe', 'safe', 'unsafe', 'malformed', 'column', 'swap'])
+    kind = r.choice(['safe', 'safe', 'safe', 'unsafe', 'malformed', 'column', 'swap', 'rich', 'rich', 'rich'])
+    if kind == 'rich':
+        return _rich_item(r)
     titles = r.sample(['S1', 'S2', 'T 2', 'Лист3', 'Data'], r.choice([2, 2, 3]))
     sheets = []
     for si, t in enumerate(titles):
@@ -97,6 +99,24 @@ def _corpus_item(seed):
     ents.append([r.randrange(len(titles_now)), 1, 5])
     ents.append([0, 7, 9])
     return {'kind': kind, 'spec': spec, 'entries': ents}
+
+
+def _rich_item(r):
+    """A workbook from execsim's generator: ~35 formula templates (every aggregate, conditional aggregate, lookup,
+    text, date and logical function the library translates, cross-sheet / whole-column / $-absolute references,
+    formulas over formulas), so that every translator and every lazily initialised token class is on some
+    client's path - what leaks between translations is most likely to live in one of them."""
+    from engines import execsim
+    spec, meta = execsim.gen_workbook(r, {'wholecol': r.random() < 0.5, 'poison': r.random() < 0.3, 'today': r.random() < 0.3})
+    if r.random() < 0.2:
+        sh = r.choice(spec['sheets'])
+        sh['cells'][a1(6, r.randint(0, 2))] = r.choice(['eval(1)', 'os.system(x)', '__import__(y)'])
+    ents = [list(f) for f in meta['formulas']]
+    r.shuffle(ents)
+    ents = ents[:5]
+    ents.append([0, 0, 0])
+    ents.append([r.randrange(len(spec['sheets'])), 1, 7])
+    return {'kind': 'rich', 'spec': spec, 'entries': ents}
 
 
 def corpus(corpus_seed, n):
